@@ -91,10 +91,16 @@ const (
 	stNoKey c09State = iota
 	stEncrypting
 	stKeyedClear
+	// keyed, an earlier secret (PutSecret / GetSecret) went over the then-encrypting
+	// stream, and normal encryption was switched off afterwards
+	stKeyedClearAfterSecret
 )
 
+// keyedClear: the stream holds a key but is not currently encrypting.
+func (s c09State) keyedClear() bool { return s == stKeyedClear || s == stKeyedClearAfterSecret }
+
 func (s c09State) String() string {
-	return [...]string{"nokey", "encrypting", "keyed-not-encrypting"}[s]
+	return [...]string{"nokey", "encrypting", "keyed-not-encrypting", "keyed-not-encrypting-after-a-secret"}[s]
 }
 
 func c09Stream(st c09State, b *netsim.Buf) *stream.Stream {
@@ -102,7 +108,17 @@ func c09Stream(st c09State, b *netsim.Buf) *stream.Stream {
 	if st != stNoKey {
 		_ = s.SetSymmetricKey(testKey)
 	}
-	if st == stKeyedClear {
+	if st == stKeyedClearAfterSecret {
+		// sender (nothing to read yet): the secret goes out first and stays at the head of the
+		// wire; receiver (wire preloaded): it reads that secret first
+		ctx := context.Background()
+		if len(b.R) == 0 {
+			_ = s.PutSecret(ctx, "an-earlier-secret")
+		} else {
+			_, _ = s.GetSecret(ctx)
+		}
+	}
+	if st.keyedClear() {
 		s.SetCryptoMode(false)
 	}
 	return s
@@ -176,7 +192,7 @@ func c09RunName(idx int, name string, v2 bool, multiFrame bool, versions []*mess
 	for opts := 0; opts < 64; opts++ {
 		for wi, wl := range wls {
 			for vi, ver := range versions {
-				for st := stNoKey; st <= stKeyedClear; st++ {
+				for st := stNoKey; st <= stKeyedClearAfterSecret; st++ {
 					res.Evals++
 					res.Nontrivial++
 					cfg := &message.PutClassAdConfig{Options: message.PutClassAdOptions(opts), Whitelist: wl, PeerVersion: ver}
@@ -218,7 +234,7 @@ func c09RunName(idx int, name string, v2 bool, multiFrame bool, versions []*mess
 					if st == stEncrypting && nprot == 0 {
 						res.Violate("C09/not-encrypted", "%s: encrypting stream emitted no protected frame", id)
 					}
-					if hasCanary && st == stKeyedClear {
+					if hasCanary && st.keyedClear() {
 						if bytes.Contains(clear, []byte(canary)) || containsAttr(bytes.ToLower(clear), lowName) {
 							res.Violate(fmt.Sprintf("C09/secret-in-clear/%s", kind), "%s: keyed stream sent the private attribute outside an encrypted frame", id)
 							res.Outcome("VIOLATION-clear")
@@ -265,7 +281,7 @@ func c09RunName(idx int, name string, v2 bool, multiFrame bool, versions []*mess
 						res.Violate(fmt.Sprintf("C09/public-lost/wl=%d", wi), "%s: a public attribute did not arrive", id)
 					}
 					switch {
-					case hasCanary && st == stKeyedClear:
+					case hasCanary && st.keyedClear():
 						res.Outcome("sent-sealed-secret-frame")
 					case hasCanary && st == stNoKey:
 						res.Outcome("sent-cleartext-nokey-optin")
@@ -305,7 +321,7 @@ func containsAttr(b []byte, lowName string) bool {
 func C09Plan() *vlib.Plan {
 	p := &vlib.Plan{
 		Property: "C09", Level: "exploration",
-		Rule:   "E-ENUM full product: every case variant of the 6 fixed private names (all 2^n variants for names <= 8 letters, lower/upper/single-letter flips otherwise) and of the _condor_priv prefix x suffixes {'',X,_key}, x all 64 option-bit sets x 4 whitelist shapes (none, public only, naming the private name, naming it in another case) x peer versions (6 fixed; for reserved-prefix names a 41-point grid major {6,8,9,10,23} x minor {0,8,9,10} x patch {0,13} + none) x 3 stream states; ad also holds near-miss public names. Oracle: independent search of wire bytes and of their reference decryption for the private name and a unique canary; real receiver in the same state must rebuild the filtered ad and stay in sync (sentinel). Non-trivial = every combo (each serialises an ad holding a private attribute).",
+		Rule:   "E-ENUM full product: every case variant of the 6 fixed private names (all 2^n variants for names <= 8 letters, lower/upper/single-letter flips otherwise) and of the _condor_priv prefix x suffixes {'',X,_key}, x all 64 option-bit sets x 4 whitelist shapes (none, public only, naming the private name, naming it in another case) x peer versions (6 fixed; for reserved-prefix names a 41-point grid major {6,8,9,10,23} x minor {0,8,9,10} x patch {0,13} + none) x 4 stream states (no key; keyed and encrypting; keyed but not encrypting; the same after an earlier PutSecret/GetSecret exchange); ad also holds near-miss public names. Oracle: independent search of wire bytes and of their reference decryption for the private name and a unique canary; real receiver in the same state must rebuild the filtered ad and stay in sync (sentinel). Non-trivial = every combo (each serialises an ad holding a private attribute).",
 		Assume: []string{"reference decryption by refcodec; canary strings are unique 10+ character tokens"},
 	}
 	p.Gen = func(tier string, yield func(vlib.Case)) {
